@@ -34,6 +34,10 @@ pub const KINDS: &[Kind] = &[
     Kind { name: "slow101", status: 101, ct: None, body: r#"{"error":"slow_down"}"# },
     Kind { name: "denied202", status: 202, ct: J, body: r#"{"error":"access_denied","error_description":"srv"}"# },
     Kind { name: "success201", status: 201, ct: J, body: r#"{"access_token":"tok","token_type":"bearer"}"# },
+    Kind { name: "slow_interval", status: 400, ct: J, body: r#"{"error":"slow_down","interval":5}"# },
+    Kind { name: "slow_interval0", status: 400, ct: J, body: r#"{"interval":0,"error_description":"x","error":"slow_down"}"# },
+    Kind { name: "slow_retry", status: 429, ct: J, body: r#"{"error":"slow_down","retry_after":1,"Retry-After":"0","interval":3600}"# },
+    Kind { name: "pending_interval", status: 400, ct: J, body: r#"{"error":"authorization_pending","interval":1,"expires_in":1}"# },
 ];
 pub fn find(name: &str) -> Option<&'static Kind> {
     KINDS.iter().find(|k| k.name == name)
